@@ -55,3 +55,9 @@ PROPS["C17"] = dict(pkg="c17", shards=16, level="exploration",
     technique="property-based testing (rapid) with exhaustive single-fault injection per generated input; oracle = the injected fault's known path vs the ConstraintError path (errors.As), premise checked by the reference interpreter",
     level_text="Exploration: generated nested schemas and valid inputs; for each input every applicable single corruption (wrong type per leaf, bounds, enum, pattern, sizes, bad map key, undeclared key, missing required) is applied one at a time and the returned error must be a ConstraintError whose path leads to the corrupted element, for Unserialize and (where expressible natively) Validate.",
     level_note="Only single-fault inputs are judged (the reference interpreter confirms base accepted / corrupted rejected); path segments are compared after stripping the SDK's [i] / [k] / {k} decoration and {oneof[..]} markers; for an undeclared key the object's path with the key named in the message is accepted; inputs use the canonical representation (no single-property shorthand).")
+
+PROPS["C15"] = dict(pkg="c15", shards=16, level="exploration",
+    technique="property-based testing (rapid) with single-feature mutation of generated schema pairs + exhaustive nil/non-nil bound matrix, evaluated 16x per pair in supervised workers; oracle = termination, determinism, reflexivity (self / copy / rebuilt from description) and the statement's list of sufficient reasons for rejection",
+    level_text="Exploration: generated consumer/producer pairs (identical, copied, rebuilt, one unconsumable mutation at any depth, one harmless mutation), the complete nil/non-nil bound matrix for five kinds (exhaustive), and recursive scopes; each pair evaluated 16 times in a supervised worker so that stack exhaustion is observed and map-order dependence shows.",
+    level_note="Rejection is only asserted for the statement's sufficient reasons (one-directional on purpose); acceptance only for identical / copied / rebuilt producers; positions under an 'any' consumer are not mutated; a schema that cannot be rebuilt from its description is C09's concern and skipped here.",
+    cap_s={"quick": 900, "thorough": 3000})
